@@ -23,7 +23,7 @@ def run(ctx):
     mc = ctx.tlc("Verdict", "MC_Verdict.cfg", timeout=1800)
     ctx.notes["mc_design"] = dict(distinct=mc.distinct, generated=mc.generated, module="Verdict (truth table shared with C04)")
     t = os.path.join(vf.REPO, "testing")
-    refcfg = open(os.path.join(t, "reference-impls-config.yaml")).read()
+    refcfg = None
     if q:
         z = random.Random(ctx.seed).choice(COMPRESSIONS)
         vers = [["HTTP_VERSION_1", "HTTP_VERSION_2"], ["HTTP_VERSION_2", "HTTP_VERSION_3"], ["HTTP_VERSION_1", "HTTP_VERSION_3"]][ctx.seed % 3]
@@ -34,17 +34,31 @@ def run(ctx):
     bins = {}
     for name in ("referenceserver", "referenceclient", "grpcserver", "grpcclient"):
         bins[name] = ctx.go_build("cmd/" + name)
-    runs = [
-        dict(id="ref-server", mode="server", config=refcfg, command=[bins["referenceserver"]],
-             knownFailing=patterns(os.path.join(t, "referenceserver-known-failing.txt")), skip=[], maxServers=16),
-        dict(id="ref-client", mode="client", config=refcfg, command=[bins["referenceclient"]],
-             knownFailing=patterns(os.path.join(t, "referenceclient-known-failing.txt")), skip=[], maxServers=16),
+    fullcfg = open(os.path.join(t, "reference-impls-config.yaml")).read()
+    kf_s = patterns(os.path.join(t, "referenceserver-known-failing.txt"))
+    kf_c = patterns(os.path.join(t, "referenceclient-known-failing.txt"))
+    if q:
+        # deep: all suites on the reduced matrix; thin: the complete matrix (every compression, version, codec,
+        # TLS mode) on a slice of the suites - so every axis value is exercised in both modes on every run
+        thin = ["Basic/**", "Errors/**"]
+        runs = [
+            dict(id="ref-server-deep", mode="server", config=refcfg, command=[bins["referenceserver"]], knownFailing=kf_s, skip=[], run=[], maxServers=16, lane=0),
+            dict(id="ref-client-deep", mode="client", config=refcfg, command=[bins["referenceclient"]], knownFailing=kf_c, skip=[], run=[], maxServers=16, lane=0),
+            dict(id="ref-server-thin", mode="server", config=fullcfg, command=[bins["referenceserver"]], knownFailing=kf_s, skip=[], run=thin, maxServers=16, lane=1),
+            dict(id="ref-client-thin", mode="client", config=fullcfg, command=[bins["referenceclient"]], knownFailing=kf_c, skip=[], run=thin, maxServers=16, lane=1),
+        ]
+    else:
+        runs = [
+            dict(id="ref-server", mode="server", config=fullcfg, command=[bins["referenceserver"]], knownFailing=kf_s, skip=[], run=[], maxServers=16, lane=0),
+            dict(id="ref-client", mode="client", config=fullcfg, command=[bins["referenceclient"]], knownFailing=kf_c, skip=[], run=[], maxServers=16, lane=0),
+        ]
+    runs += [
         dict(id="grpc-server", mode="server", config=open(os.path.join(t, "grpc-impls-config.yaml")).read(), command=[bins["grpcserver"]],
-             knownFailing=patterns(os.path.join(t, "grpcserver-known-failing.txt")), skip=[], maxServers=16),
+             knownFailing=patterns(os.path.join(t, "grpcserver-known-failing.txt")), skip=[], run=[], maxServers=16, lane=1),
         dict(id="grpc-web-server", mode="server", config=open(os.path.join(t, "grpc-web-server-impl-config.yaml")).read(), command=[bins["grpcserver"]],
-             knownFailing=patterns(os.path.join(t, "grpcserver-web-known-failing.txt")), skip=[], maxServers=16),
+             knownFailing=patterns(os.path.join(t, "grpcserver-web-known-failing.txt")), skip=[], run=[], maxServers=16, lane=1),
         dict(id="grpc-client", mode="client", config=open(os.path.join(t, "grpc-impls-config.yaml")).read(), command=[bins["grpcclient"]],
-             knownFailing=patterns(os.path.join(t, "grpcclient-known-failing.txt")), skip=[], maxServers=16),
+             knownFailing=patterns(os.path.join(t, "grpcclient-known-failing.txt")), skip=[], run=[], maxServers=16, lane=1),
     ]
     if ctx.replay:
         rid = json.load(open(ctx.replay))["scenario"]["id"]
@@ -97,7 +111,7 @@ def run(ctx):
     ctx.sample(dict(run=recs[0]["id"], first_cases=recs[0]["cases"][:3], output=(recs[0].get("output") or [])[-3:]))
     ctx.cov["rule"] = ("the five Go-peer runs of `make runconformance` (reference server, reference client, gRPC server, gRPC-Web server, gRPC client; "
                        "shipped configs and known-failing lists, HTTP tracing on) through the in-package run() against the built peer binaries; "
-                       "quick restricts the reference matrix to two compressions; every permutation is one evaluation (all are real RPCs); "
+                       "quick = all suites on a reduced matrix (two compressions, two HTTP versions, rotating with the seed) plus the complete matrix on a slice of the suites (Basic, Errors); every permutation is one evaluation (all are real RPCs); "
                        "each run is accepted by Trace_Matrix iff verdict ok, outcome names = selected names, and Success() of VerdictDecl.")
     ctx.assumptions += ["the browser gRPC-Web client run needs npm and is not executed",
                         "selected names are computed with the runner's own library code (the planner is C06-C08's subject)",
